@@ -20,6 +20,7 @@ var disturberKinds = []string{
 	"cancel-mid", "cancel-early", "caller-deadline", "handler-deadline",
 	"handler-never-reads", "caller-never-reads", "both-never-read", "many-never-read",
 	"after-shutdown",
+	"creds-error", "creds-need-tls",
 }
 
 func init() {
@@ -207,6 +208,17 @@ func famDisturb(w *World, c *Case, rng *rand.Rand) {
 		d.Method = "Bidi"
 		d.Client = []Op{{K: "open"}, {K: "send", N: 40000}, {K: "close"}, {K: "recvall"}}
 		d.Handler = []Op{{K: "recvall"}, {K: "ret"}}
+	case "creds-error", "creds-need-tls":
+		// fails on the client after a stream id was taken for it: the ids of later RPCs skip one
+		d.Method, d.FailCreds = "Unary", map[string]string{"creds-error": "error", "creds-need-tls": "tls"}[kind]
+		d.Client = []Op{{K: "invoke", N: 10}}
+		for i := 0; i < 2; i++ {
+			x := mk("d" + string(rune('0'+i)))
+			x.Method, x.FailCreds = "Bidi", d.FailCreds
+			x.Client = []Op{{K: "open"}, {K: "send", N: 10}, {K: "close"}, {K: "recvall"}}
+			ds = append(ds, x)
+		}
+		ds = append(ds, d)
 	case "handler-panics":
 		d.Method = "Bidi"
 		d.Client = []Op{{K: "open"}, {K: "send", N: 40000}, {K: "recvall"}}
